@@ -380,6 +380,11 @@ def check(run: Run) -> None:
             if e.startswith("C02.a:"):
                 raise AnalysisError("model-mismatch", e)
 
+    with run.obligation("C18.h", "K1+K2", "a node with schedule_on_start is woken in the start cycle whatever its start hook booked for later: node start_impl schedules "
+                        "it unconditionally after the hook (shared with C03.f)"):
+        from . import c03
+        R.share(run, "C18.h", c03, ["C03.f"])
+
 
 def _V(x):
     return x
